@@ -88,7 +88,7 @@ def _machine(cfg: HistoryProperty, res: ShardResult, max_rules: int):
         if cfg.instr_bias.get("raw"):
 
             @rule(mode=st.integers(0, 1), gen=st.integers(0, 2), rkind=st.sampled_from(cfg.instr_bias.get("raw_kinds") or [0, 0, 1, 2, 3, 4, 5]), vclass=st.sampled_from([0, 1, 2, 9, 9, 9, 4, 6]),
-                  vsel=st.integers(0, 9), tclass=st.sampled_from([0, 1, 2, 2, 5]), tsel=st.integers(0, 9), csel=st.integers(0, 31), rsel=st.integers(0, 14))
+                  vsel=st.integers(0, 9), tclass=st.sampled_from(cfg.instr_bias.get("raw_tclasses") or [0, 1, 2, 2, 5]), tsel=st.integers(0, 9), csel=st.integers(0, 31), rsel=st.integers(0, 14))
             def raw(self, mode, gen, rkind, vclass, vsel, tclass, tsel, csel, rsel):
                 self._do(["raw", mode, gen, rkind, vclass, vsel, tclass, tsel, csel, rsel])
                 if mode % 2 == 0:
